@@ -41,3 +41,22 @@ Definition level_op (F : float_ops) (op : binop) : option (nnum -> nnum -> outco
   | ORem => Some (num_rem F) | ODivFloor => Some (num_div_floor F) | OModFloor => Some (num_mod_floor F)
   | _ => None
   end.
+
+(* the exact meaning of each binary operator on Q (`^` is stated separately with Qpower) *)
+Definition q_binop (op : binop) (a b : Q) : Q :=
+  match op with
+  | OAdd => a + b | OSub => a - b | OMul => a * b | ODiv => a / b
+  | ORem => q_rem a b | ODivFloor => q_div_floor a b | OModFloor => q_mod_floor a b
+  | OPow => 0
+  end%Q.
+Definition needs_nonzero (op : binop) : bool :=
+  match op with ORem | ODivFloor | OModFloor | ODiv => true | _ => false end.
+
+(* element-wise meaning of a vectorised binary builtin *)
+Definition pointwise2 (body : nnum -> nnum -> outcome nnum) (l1 l2 out : list nnum) : Prop :=
+  length out = length l1 /\ length l1 = length l2 /\
+  forall i x y, nth_error l1 i = Some x -> nth_error l2 i = Some y ->
+    exists v, nth_error out i = Some v /\ body x y = Ok v.
+Definition pointwise1 (body : nnum -> outcome nnum) (l out : list nnum) : Prop :=
+  length out = length l /\
+  forall i x, nth_error l i = Some x -> exists v, nth_error out i = Some v /\ body x = Ok v.
